@@ -15,8 +15,27 @@ variable {H : Type} (I : Iface H)
 
 /-! ### one pair -/
 
+/-- all replicas of the list have cutoff field `m` and at least `m` slots (what the step establishes
+before swapping) -/
+def EqM (m : Nat) (gs : List (Replica H)) : Prop :=
+  ∀ r ∈ gs, r.cutoff = m ∧ m ≤ r.cfg.slots.length
+
+theorem padTo_ge (s : Slots) (c : Nat) (h : c ≤ s.length) : padTo s c = s := by
+  have : c - s.length = 0 := by omega
+  simp [padTo, this]
+
+/-- with equal cutoffs and long enough strings `swap_manager_and_state` is the plain exchange -/
+theorem swapGraphs_eq_exchange (a b : Replica H) (m : Nat) (ha : a.cutoff = m) (hb : b.cutoff = m)
+    (hla : m ≤ a.cfg.slots.length) (hlb : m ≤ b.cfg.slots.length) :
+    swapGraphs a b = ({ a with cfg := b.cfg }, { b with cfg := a.cfg }) := by
+  obtain ⟨ham, beta, offset, rng, bw, cutoff, ⟨st, sl⟩⟩ := a
+  obtain ⟨ham', beta', offset', rng', bw', cutoff', ⟨st', sl'⟩⟩ := b
+  simp only at ha hb hla hlb
+  subst ha; subst hb
+  simp [swapGraphs, Replica.setCutoff, padTo_ge _ _ hla, padTo_ge _ _ hlb]
+
 theorem swapOnChunks_accepted (a b : Replica H) (u : Rat) (ev : Bool) (h : u < pSwap I a b ev) :
-    swapOnChunks I a b u ev = ({ a with cfg := b.cfg }, { b with cfg := a.cfg }, true) := by
+    swapOnChunks I a b u ev = ((swapGraphs a b).1, (swapGraphs a b).2, true) := by
   simp [swapOnChunks, h]
 
 theorem swapOnChunks_rejected (a b : Replica H) (u : Rat) (ev : Bool) (h : ¬ u < pSwap I a b ev) :
@@ -24,44 +43,63 @@ theorem swapOnChunks_rejected (a b : Replica H) (u : Rat) (ev : Bool) (h : ¬ u 
   simp [swapOnChunks, h]
 
 theorem swapOnChunks_frame (a b : Replica H) (u : Rat) (ev : Bool) :
-    (swapOnChunks I a b u ev).1.frame = a.frame ∧ (swapOnChunks I a b u ev).2.1.frame = b.frame ∧
-    (swapOnChunks I a b u ev).1.cutoff = a.cutoff ∧ (swapOnChunks I a b u ev).2.1.cutoff = b.cutoff := by
-  unfold swapOnChunks; split <;> simp [Replica.frame]
+    (swapOnChunks I a b u ev).1.frame = a.frame ∧ (swapOnChunks I a b u ev).2.1.frame = b.frame := by
+  unfold swapOnChunks; split <;> simp [Replica.frame, swapGraphs, Replica.setCutoff]
 
-theorem swapOnChunks_cfg (a b : Replica H) (u : Rat) (ev : Bool) :
-    ((swapOnChunks I a b u ev).1.cfg = b.cfg ∧ (swapOnChunks I a b u ev).2.1.cfg = a.cfg ∧
+theorem swapOnChunks_cfg (a b : Replica H) (u : Rat) (ev : Bool) (m : Nat)
+    (ha : a.cutoff = m ∧ m ≤ a.cfg.slots.length) (hb : b.cutoff = m ∧ m ≤ b.cfg.slots.length) :
+    (swapOnChunks I a b u ev).1.cutoff = m ∧ (swapOnChunks I a b u ev).2.1.cutoff = m ∧
+    (((swapOnChunks I a b u ev).1.cfg = b.cfg ∧ (swapOnChunks I a b u ev).2.1.cfg = a.cfg ∧
       (swapOnChunks I a b u ev).2.2 = true) ∨
     ((swapOnChunks I a b u ev).1.cfg = a.cfg ∧ (swapOnChunks I a b u ev).2.1.cfg = b.cfg ∧
-      (swapOnChunks I a b u ev).2.2 = false) := by
-  unfold swapOnChunks; split <;> simp
+      (swapOnChunks I a b u ev).2.2 = false)) := by
+  unfold swapOnChunks
+  rw [swapGraphs_eq_exchange a b m ha.1 hb.1 ha.2 hb.2]
+  split <;> simp [ha.1, hb.1]
 
 /-! ### `perform_swaps` -/
 
 theorem performSwaps_frame : ∀ (pos : Nat) (gs : List (Replica H)) (eqs : List Bool) (s : RS),
-    (performSwaps I pos gs eqs s).1.map Replica.frame = gs.map Replica.frame ∧
-    (performSwaps I pos gs eqs s).1.map (·.cutoff) = gs.map (·.cutoff)
+    (performSwaps I pos gs eqs s).1.map Replica.frame = gs.map Replica.frame
   | pos, a :: b :: rest, eq :: eqs, s => by
     have ih := performSwaps_frame (pos + 2) rest eqs (s.genRangeF 1).2
     have hf := swapOnChunks_frame I a b (s.genRangeF 1).1 (!eq)
     simp only [performSwaps, List.map_cons]
-    exact ⟨by rw [hf.1, hf.2.1, ih.1], by rw [hf.2.2.1, hf.2.2.2, ih.2]⟩
+    rw [hf.1, hf.2, ih]
   | _, [], _, _ => by simp [performSwaps]
   | _, [_], _, _ => by simp [performSwaps]
   | _, _ :: _ :: _, [], _ => by simp [performSwaps]
 
-theorem performSwaps_perm : ∀ (pos : Nat) (gs : List (Replica H)) (eqs : List Bool) (s : RS),
+theorem performSwaps_inv (m : Nat) : ∀ (pos : Nat) (gs : List (Replica H)) (eqs : List Bool) (s : RS),
+    EqM m gs →
+    EqM m (performSwaps I pos gs eqs s).1 ∧
     ((performSwaps I pos gs eqs s).1.map (·.cfg)).Perm (gs.map (·.cfg))
-  | pos, a :: b :: rest, eq :: eqs, s => by
-    have ih := performSwaps_perm (pos + 2) rest eqs (s.genRangeF 1).2
+  | pos, a :: b :: rest, eq :: eqs, s, h => by
+    have ha := h a (List.mem_cons_self ..)
+    have hb := h b (List.mem_cons_of_mem _ (List.mem_cons_self ..))
+    have hr : EqM m rest := fun r hr => h r (List.mem_cons_of_mem _ (List.mem_cons_of_mem _ hr))
+    have ih := performSwaps_inv m (pos + 2) rest eqs (s.genRangeF 1).2 hr
+    have hc := swapOnChunks_cfg I a b (s.genRangeF 1).1 (!eq) m ha hb
     simp only [performSwaps, List.map_cons]
-    rcases swapOnChunks_cfg I a b (s.genRangeF 1).1 (!eq) with h | h
-    · rw [h.1, h.2.1]
-      exact (List.Perm.swap _ _ _).trans ((ih.cons _).cons _)
-    · rw [h.1, h.2.1]
-      exact (ih.cons _).cons _
-  | _, [], _, _ => by simp [performSwaps]
-  | _, [_], _, _ => by simp [performSwaps]
-  | _, _ :: _ :: _, [], _ => by simp [performSwaps]
+    constructor
+    · intro r hr'
+      simp only [List.mem_cons] at hr'
+      rcases hr' with rfl | rfl | hr'
+      · rcases hc.2.2 with h1 | h1
+        · exact ⟨hc.1, by rw [h1.1]; exact hb.2⟩
+        · exact ⟨hc.1, by rw [h1.1]; exact ha.2⟩
+      · rcases hc.2.2 with h1 | h1
+        · exact ⟨hc.2.1, by rw [h1.2.1]; exact ha.2⟩
+        · exact ⟨hc.2.1, by rw [h1.2.1]; exact hb.2⟩
+      · exact ih.1 r hr'
+    · rcases hc.2.2 with h1 | h1
+      · rw [h1.1, h1.2.1]
+        exact (List.Perm.swap _ _ _).trans ((ih.2.cons _).cons _)
+      · rw [h1.1, h1.2.1]
+        exact (ih.2.cons _).cons _
+  | _, [], _, _, h => by simp [performSwaps, EqM]
+  | _, [x], _, _, h => by simpa [performSwaps] using h
+  | _, x :: y :: t, [], _, h => by simpa [performSwaps] using h
 
 /-- the left indices of the decisions: `pos, pos+2, …` -/
 theorem performSwaps_lefts : ∀ (pos : Nat) (gs : List (Replica H)) (eqs : List Bool) (s : RS),
@@ -139,37 +177,59 @@ theorem parallel_eq_serial : ∀ (pos : Nat) (gs : List (Replica H)) (eqs : List
 /-- what the step needs from a swap routine -/
 structure GoodSwap (f : SwapFn H) : Prop where
   frame : ∀ pos gs eqs s, (f pos gs eqs s).1.map Replica.frame = gs.map Replica.frame
-  cutoff : ∀ pos gs eqs s, (f pos gs eqs s).1.map (·.cutoff) = gs.map (·.cutoff)
-  perm : ∀ pos gs eqs s, ((f pos gs eqs s).1.map (·.cfg)).Perm (gs.map (·.cfg))
+  inv : ∀ m pos gs eqs s, EqM m gs →
+    EqM m (f pos gs eqs s).1 ∧ ((f pos gs eqs s).1.map (·.cfg)).Perm (gs.map (·.cfg))
 
 theorem goodSwap_serial : GoodSwap (performSwaps I) :=
-  ⟨fun pos gs eqs s => (performSwaps_frame I pos gs eqs s).1,
-   fun pos gs eqs s => (performSwaps_frame I pos gs eqs s).2,
-   performSwaps_perm I⟩
+  ⟨performSwaps_frame I, fun m pos gs eqs s h => performSwaps_inv I m pos gs eqs s h⟩
 
 theorem decideSwaps_frame : ∀ (pos : Nat) (gs : List (Replica H)) (us : List Rat) (eqs : List Bool),
-    (decideSwaps I pos gs us eqs).1.map Replica.frame = gs.map Replica.frame ∧
-    (decideSwaps I pos gs us eqs).1.map (·.cutoff) = gs.map (·.cutoff) ∧
-    ((decideSwaps I pos gs us eqs).1.map (·.cfg)).Perm (gs.map (·.cfg))
+    (decideSwaps I pos gs us eqs).1.map Replica.frame = gs.map Replica.frame
   | pos, a :: b :: rest, u :: us, eq :: eqs => by
     have ih := decideSwaps_frame (pos + 2) rest us eqs
     have hf := swapOnChunks_frame I a b u (!eq)
     simp only [decideSwaps, List.map_cons]
-    refine ⟨by rw [hf.1, hf.2.1, ih.1], by rw [hf.2.2.1, hf.2.2.2, ih.2.1], ?_⟩
-    rcases swapOnChunks_cfg I a b u (!eq) with h | h
-    · rw [h.1, h.2.1]
-      exact (List.Perm.swap _ _ _).trans ((ih.2.2.cons _).cons _)
-    · rw [h.1, h.2.1]
-      exact (ih.2.2.cons _).cons _
+    rw [hf.1, hf.2, ih]
   | _, [], _, _ => by simp [decideSwaps]
   | _, [_], _, _ => by simp [decideSwaps]
   | _, _ :: _ :: _, [], _ => by simp [decideSwaps]
   | _, _ :: _ :: _, _ :: _, [] => by simp [decideSwaps]
 
+theorem decideSwaps_inv (m : Nat) : ∀ (pos : Nat) (gs : List (Replica H)) (us : List Rat)
+    (eqs : List Bool), EqM m gs →
+    EqM m (decideSwaps I pos gs us eqs).1 ∧
+    ((decideSwaps I pos gs us eqs).1.map (·.cfg)).Perm (gs.map (·.cfg))
+  | pos, a :: b :: rest, u :: us, eq :: eqs, h => by
+    have ha := h a (List.mem_cons_self ..)
+    have hb := h b (List.mem_cons_of_mem _ (List.mem_cons_self ..))
+    have hr : EqM m rest := fun r hr => h r (List.mem_cons_of_mem _ (List.mem_cons_of_mem _ hr))
+    have ih := decideSwaps_inv m (pos + 2) rest us eqs hr
+    have hc := swapOnChunks_cfg I a b u (!eq) m ha hb
+    simp only [decideSwaps, List.map_cons]
+    constructor
+    · intro r hr'
+      simp only [List.mem_cons] at hr'
+      rcases hr' with rfl | rfl | hr'
+      · rcases hc.2.2 with h1 | h1
+        · exact ⟨hc.1, by rw [h1.1]; exact hb.2⟩
+        · exact ⟨hc.1, by rw [h1.1]; exact ha.2⟩
+      · rcases hc.2.2 with h1 | h1
+        · exact ⟨hc.2.1, by rw [h1.2.1]; exact ha.2⟩
+        · exact ⟨hc.2.1, by rw [h1.2.1]; exact hb.2⟩
+      · exact ih.1 r hr'
+    · rcases hc.2.2 with h1 | h1
+      · rw [h1.1, h1.2.1]
+        exact (List.Perm.swap _ _ _).trans ((ih.2.cons _).cons _)
+      · rw [h1.1, h1.2.1]
+        exact (ih.2.cons _).cons _
+  | _, [], _, _, h => by simp [decideSwaps, EqM]
+  | _, [x], _, _, h => by simpa [decideSwaps] using h
+  | _, x :: y :: t, [], _, h => by simpa [decideSwaps] using h
+  | _, x :: y :: t, _ :: _, [], h => by simpa [decideSwaps] using h
+
 theorem goodSwap_parallel : GoodSwap (parallelPerformSwaps I) :=
-  ⟨fun pos gs eqs s => (decideSwaps_frame I pos gs _ eqs).1,
-   fun pos gs eqs s => (decideSwaps_frame I pos gs _ eqs).2.1,
-   fun pos gs eqs s => (decideSwaps_frame I pos gs _ eqs).2.2⟩
+  ⟨fun pos gs eqs s => decideSwaps_frame I pos gs _ eqs,
+   fun m pos gs eqs s h => decideSwaps_inv I m pos gs _ eqs h⟩
 
 theorem split_first {α : Type} (gs : List α) :
     firstSub gs ++ gs.drop (firstLen gs.length) = gs := List.take_append_drop _ _
@@ -194,29 +254,50 @@ variable {f : SwapFn H} (hf : GoodSwap f)
 include hf
 
 theorem phaseA_frame (gs : List (Replica H)) (eqs : List Bool) (s : RS) :
-    (phaseA f gs eqs s).1.map Replica.frame = gs.map Replica.frame ∧
-    (phaseA f gs eqs s).1.map (·.cutoff) = gs.map (·.cutoff) ∧
-    ((phaseA f gs eqs s).1.map (·.cfg)).Perm (gs.map (·.cfg)) := by
+    (phaseA f gs eqs s).1.map Replica.frame = gs.map Replica.frame := by
   unfold phaseA
   simp only [List.map_append]
-  refine ⟨?_, ?_, ?_⟩
-  · rw [hf.frame, ← List.map_append, split_first]
-  · rw [hf.cutoff, ← List.map_append, split_first]
-  · have h1 := (hf.perm 0 (firstSub gs) eqs s).append_right ((gs.drop (firstLen gs.length)).map (·.cfg))
+  rw [hf.frame, ← List.map_append, split_first]
+
+theorem phaseB_frame (gs : List (Replica H)) (eqs : List Bool) (s : RS) :
+    (phaseB f gs eqs s).1.map Replica.frame = gs.map Replica.frame := by
+  unfold phaseB
+  simp only [List.map_append]
+  rw [hf.frame, ← List.map_append, ← List.map_append, split_second]
+
+theorem phaseA_inv (m : Nat) (gs : List (Replica H)) (eqs : List Bool) (s : RS) (h : EqM m gs) :
+    EqM m (phaseA f gs eqs s).1 ∧
+    ((phaseA f gs eqs s).1.map (·.cfg)).Perm (gs.map (·.cfg)) := by
+  have hsub : EqM m (firstSub gs) := fun r hr => h r (List.mem_of_mem_take hr)
+  have g := hf.inv m 0 (firstSub gs) eqs s hsub
+  unfold phaseA
+  simp only [List.map_append]
+  constructor
+  · intro r hr
+    rcases List.mem_append.mp hr with hr | hr
+    · exact g.1 r hr
+    · exact h r (List.mem_of_mem_drop hr)
+  · have h1 := g.2.append_right ((gs.drop (firstLen gs.length)).map (·.cfg))
     have h2 : (firstSub gs).map (·.cfg) ++ (gs.drop (firstLen gs.length)).map (·.cfg) = gs.map (·.cfg) := by
       rw [← List.map_append, split_first]
     rw [h2] at h1; exact h1
 
-theorem phaseB_frame (gs : List (Replica H)) (eqs : List Bool) (s : RS) :
-    (phaseB f gs eqs s).1.map Replica.frame = gs.map Replica.frame ∧
-    (phaseB f gs eqs s).1.map (·.cutoff) = gs.map (·.cutoff) ∧
+theorem phaseB_inv (m : Nat) (gs : List (Replica H)) (eqs : List Bool) (s : RS) (h : EqM m gs) :
+    EqM m (phaseB f gs eqs s).1 ∧
     ((phaseB f gs eqs s).1.map (·.cfg)).Perm (gs.map (·.cfg)) := by
+  have hsub : EqM m (secondSub gs) := fun r hr =>
+    h r (List.mem_of_mem_take (List.mem_of_mem_drop hr))
+  have g := hf.inv m 1 (secondSub gs) eqs s hsub
   unfold phaseB
   simp only [List.map_append]
-  refine ⟨?_, ?_, ?_⟩
-  · rw [hf.frame, ← List.map_append, ← List.map_append, split_second]
-  · rw [hf.cutoff, ← List.map_append, ← List.map_append, split_second]
-  · have h1 := ((hf.perm 1 (secondSub gs) eqs s).append_left ((gs.take 1).map (·.cfg))).append_right
+  constructor
+  · intro r hr
+    rcases List.mem_append.mp hr with hr | hr
+    · rcases List.mem_append.mp hr with hr | hr
+      · exact h r (List.mem_of_mem_take hr)
+      · exact g.1 r hr
+    · exact h r (List.mem_of_mem_drop hr)
+  · have h1 := (g.2.append_left ((gs.take 1).map (·.cfg))).append_right
       ((gs.drop (secondEnd gs.length)).map (·.cfg))
     have h2 : (gs.take 1).map (·.cfg) ++ (secondSub gs).map (·.cfg) ++
         (gs.drop (secondEnd gs.length)).map (·.cfg) = gs.map (·.cfg) := by
@@ -231,9 +312,15 @@ theorem map_setCutoff_frame (gs : List (Replica H)) (m : Nat) :
     (gs.map (·.setCutoff m)).map Replica.frame = gs.map Replica.frame := by
   simp [List.map_map, Function.comp_def, Replica.setCutoff, Replica.frame]
 
-theorem map_setCutoff_cutoff (gs : List (Replica H)) (m : Nat) :
-    (gs.map (·.setCutoff m)).map (·.cutoff) = gs.map (fun _ => m) := by
-  simp [List.map_map, Function.comp_def, Replica.setCutoff]
+theorem padTo_length_ge (s : Slots) (c : Nat) : c ≤ (padTo s c).length := by
+  simp [padTo]; omega
+
+/-- `set_cutoff(m)` on every replica establishes the invariant of the swap phase -/
+theorem eqM_setCutoff (gs : List (Replica H)) (m : Nat) : EqM m (gs.map (·.setCutoff m)) := by
+  intro r hr
+  simp only [List.mem_map] at hr
+  obtain ⟨r0, _, rfl⟩ := hr
+  exact ⟨rfl, padTo_length_ge _ _⟩
 
 theorem foldl_max_ge (gs : List (Replica H)) : ∀ (m0 : Nat),
     m0 ≤ gs.foldl (fun m r => max m r.cutoff) m0 ∧
@@ -278,9 +365,9 @@ theorem countOps_padTo (s : Slots) (c : Nat) : countOps (padTo s c) = countOps s
 /-! ### the whole step -/
 
 theorem stepCore_spec (fa : SwapFn H) (hfa : GoodSwap fa) (ts : Nat) (eqs : List Bool × List Bool)
-    (gs : List (Replica H)) (g : Bool × RS) :
+    (gs : List (Replica H)) (g : Bool × RS) (m : Nat) (hm : EqM m gs) :
     (stepCore I fa ts eqs gs g).1.graphs.map Replica.frame = gs.map Replica.frame ∧
-    (stepCore I fa ts eqs gs g).1.graphs.map (·.cutoff) = gs.map (·.cutoff) ∧
+    EqM m (stepCore I fa ts eqs gs g).1.graphs ∧
     ((stepCore I fa ts eqs gs g).1.graphs.map (·.cfg)).Perm (gs.map (·.cfg)) ∧
     (stepCore I fa ts eqs gs g).1.totalSwaps = ts + countAccepted (stepCore I fa ts eqs gs g).2 ∧
     (stepCore I fa ts eqs gs g).1.eqA = some eqs.1 ∧ (stepCore I fa ts eqs gs g).1.eqB = some eqs.2 := by
@@ -288,35 +375,35 @@ theorem stepCore_spec (fa : SwapFn H) (hfa : GoodSwap fa) (ts : Nat) (eqs : List
   unfold stepCore
   by_cases hg : g.1 = true
   · rw [if_pos hg]
-    have ha := phaseA_frame hfa gs eqs.1 g.2
-    have hb := phaseB_frame hs (phaseA fa gs eqs.1 g.2).1 eqs.2 (phaseA fa gs eqs.1 g.2).2.2
-    refine ⟨?_, ?_, ?_, ?_, rfl, rfl⟩
-    · rw [hb.1, ha.1]
-    · rw [hb.2.1, ha.2.1]
-    · exact hb.2.2.trans ha.2.2
+    have ha := phaseA_inv hfa m gs eqs.1 g.2 hm
+    have hb := phaseB_inv hs m (phaseA fa gs eqs.1 g.2).1 eqs.2 (phaseA fa gs eqs.1 g.2).2.2 ha.1
+    refine ⟨?_, hb.1, hb.2.trans ha.2, ?_, rfl, rfl⟩
+    · show List.map Replica.frame (phaseB (performSwaps I) (phaseA fa gs eqs.1 g.2).1 eqs.2
+        (phaseA fa gs eqs.1 g.2).2.2).1 = _
+      rw [phaseB_frame hs, phaseA_frame hfa]
     · simp [countAccepted, List.filter_append, Nat.add_assoc]
   · rw [if_neg hg]
-    have hb := phaseB_frame hs gs eqs.2 g.2
-    have ha := phaseA_frame hfa (phaseB (performSwaps I) gs eqs.2 g.2).1 eqs.1
-      (phaseB (performSwaps I) gs eqs.2 g.2).2.2
-    refine ⟨?_, ?_, ?_, ?_, rfl, rfl⟩
-    · rw [ha.1, hb.1]
-    · rw [ha.2.1, hb.2.1]
-    · exact ha.2.2.trans hb.2.2
+    have hb := phaseB_inv hs m gs eqs.2 g.2 hm
+    have ha := phaseA_inv hfa m (phaseB (performSwaps I) gs eqs.2 g.2).1 eqs.1
+      (phaseB (performSwaps I) gs eqs.2 g.2).2.2 hb.1
+    refine ⟨?_, ha.1, ha.2.trans hb.2, ?_, rfl, rfl⟩
+    · show List.map Replica.frame (phaseA fa (phaseB (performSwaps I) gs eqs.2 g.2).1 eqs.1
+        (phaseB (performSwaps I) gs eqs.2 g.2).2.2).1 = _
+      rw [phaseA_frame hfa, phaseB_frame hs]
     · simp [countAccepted, List.filter_append, Nat.add_assoc]
 
 theorem stepBody_spec (fa : SwapFn H) (hfa : GoodSwap fa) (c : Container H) :
     (stepBody I fa c).1.graphs.map Replica.frame = c.graphs.map Replica.frame ∧
-    (stepBody I fa c).1.graphs.map (·.cutoff) = c.graphs.map (fun _ => maxCutoff c.graphs) ∧
+    EqM (maxCutoff c.graphs) (stepBody I fa c).1.graphs ∧
     ((stepBody I fa c).1.graphs.map (·.cfg)).Perm
       ((c.graphs.map (·.setCutoff (maxCutoff c.graphs))).map (·.cfg)) ∧
     (stepBody I fa c).1.totalSwaps = c.totalSwaps + countAccepted (stepBody I fa c).2 := by
   unfold stepBody
   have h := stepCore_spec I fa hfa c.totalSwaps (hamEqualities I c)
     (c.graphs.map (·.setCutoff (maxCutoff c.graphs))) (c.rng.genBool (1 / 2))
-  refine ⟨?_, ?_, h.2.2.1, h.2.2.2.1⟩
-  · rw [h.1, map_setCutoff_frame]
-  · rw [h.2.1, map_setCutoff_cutoff]
+    (maxCutoff c.graphs) (eqM_setCutoff _ _)
+  refine ⟨?_, h.2.1, h.2.2.1, h.2.2.2.1⟩
+  rw [h.1, map_setCutoff_frame]
 
 /-! ### which pairs are attempted -/
 
@@ -373,8 +460,8 @@ def EqLens (eqs : List Bool × List Bool) (n : Nat) : Prop :=
 
 theorem phase_length {f : SwapFn H} (hf : GoodSwap f) (gs : List (Replica H)) (eqs : List Bool) (s : RS) :
     (phaseA f gs eqs s).1.length = gs.length ∧ (phaseB f gs eqs s).1.length = gs.length := by
-  have a := congrArg List.length (phaseA_frame hf gs eqs s).1
-  have b := congrArg List.length (phaseB_frame hf gs eqs s).1
+  have a := congrArg List.length (phaseA_frame hf gs eqs s)
+  have b := congrArg List.length (phaseB_frame hf gs eqs s)
   simpa using And.intro a b
 
 theorem stepCore_lefts (ts : Nat) (eqs : List Bool × List Bool) (gs : List (Replica H)) (g : Bool × RS)
@@ -452,6 +539,7 @@ theorem cacheValid_stepBody (fa : SwapFn H) (hfa : GoodSwap fa) (c : Container H
     simpa using congrArg List.length hh
   have core := stepCore_spec I fa hfa c.totalSwaps (hamEqualities I c)
     (c.graphs.map (·.setCutoff (maxCutoff c.graphs))) (c.rng.genBool (1 / 2))
+    (maxCutoff c.graphs) (eqM_setCutoff _ _)
   have eA : (stepBody I fa c).1.eqA = some (hamEqualities I c).1 := core.2.2.2.2.1
   have eB : (stepBody I fa c).1.eqB = some (hamEqualities I c).2 := core.2.2.2.2.2
   rw [hamEqualities_eq I c h] at eA eB
